@@ -30,52 +30,83 @@ database but is not registered), and `Neg.gap_loses_entry` refutes `no_loss` for
 theorem gapFree_init (cfg : Cfg) (hc : cfg.atomicAcquire = true) (evs : List Ev) : GapFree cfg St.init evs :=
   gapFree_of_atomic cfg hc evs (by intro fl hfl; simp [St.init] at hfl)
 
-/-- The log's acknowledged position never runs ahead of the sequence stored durably with the
-flushed data — in every reachable state, hence in every crash image. -/
-theorem ack_le_stored_partial (cfg : Cfg) (evs : List Ev) (hg : GapFree cfg St.init evs) :
-    (run cfg St.init evs).groupAck ≤ ov (run cfg St.init evs).stored :=
-  (inv_run cfg evs hg inv_init).ack_stored
+/-- The log's acknowledged position never runs ahead of the sequence stored durably with the flushed
+data, except over CORRUPT entries (payloads that do not decompress: they carry no rows, and
+`IgnoreMessage` acknowledges such an entry only when it directly follows the acknowledged position) —
+in every reachable state, hence in every crash image. With corrupt entries in the alphabet the bare
+inequality `groupAck ≤ stored` is false for the code (a corrupt entry right behind a fully flushed log
+is acknowledged without any flush), see `ack_past_stored_only_over_corrupt`. -/
+theorem ack_le_stored_partial (cfg : Cfg) (hx : cfg.ignoreExact = true) (evs : List Ev)
+    (hg : GapFree cfg St.init evs) (s : Int) (h0 : 0 ≤ s) (hs : s ≤ (run cfg St.init evs).groupAck) :
+    s ≤ ov (run cfg St.init evs).stored ∨ Bad (run cfg St.init evs) s :=
+  (inv_run cfg hx evs hg inv_init).ack_stored s h0 hs
 
-theorem ack_le_stored (cfg : Cfg) (hc : cfg.atomicAcquire = true) (evs : List Ev) :
-    (run cfg St.init evs).groupAck ≤ ov (run cfg St.init evs).stored :=
-  ack_le_stored_partial cfg evs (gapFree_init cfg hc evs)
+theorem ack_le_stored (cfg : Cfg) (hx : cfg.ignoreExact = true) (hc : cfg.atomicAcquire = true)
+    (evs : List Ev) (s : Int) (h0 : 0 ≤ s) (hs : s ≤ (run cfg St.init evs).groupAck) :
+    s ≤ ov (run cfg St.init evs).stored ∨ Bad (run cfg St.init evs) s :=
+  ack_le_stored_partial cfg hx evs (gapFree_init cfg hc evs) s h0 hs
 
-/-- Every appended log entry is contained in a durable data file (with its own payload), or is
-still in the (existing) log above the acknowledged position, so the rewound replicator consumes it again. -/
-theorem no_loss_partial (cfg : Cfg) (evs : List Ev) (hg : GapFree cfg St.init evs) (s : Int)
-    (h0 : 0 ≤ s) (_hs : s ≤ (run cfg St.init evs).appended) :
-    (∃ r ∈ fileRows (run cfg St.init evs), r.seq = s ∧
-        (run cfg St.init evs).log[s.toNat]? = some (r.metric, r.tagv)) ∨
+/-- the literal inequality for histories without corrupt entries -/
+theorem ack_le_stored_no_corrupt (cfg : Cfg) (hx : cfg.ignoreExact = true) (hc : cfg.atomicAcquire = true)
+    (evs : List Ev) (hgood : ∀ s, ¬ Bad (run cfg St.init evs) s) :
+    (run cfg St.init evs).groupAck ≤ ov (run cfg St.init evs).stored := by
+  have hi := inv_run cfg hx evs (gapFree_init cfg hc evs) inv_init
+  by_cases h0 : 0 ≤ (run cfg St.init evs).groupAck
+  · rcases hi.ack_stored _ h0 (Int.le_refl _) with h | h
+    · exact h
+    · exact absurd h (hgood _)
+  · have := hi.stored_lo; omega
+
+/-- Every appended log entry that carries rows is contained in a durable data file (with its own
+payload), or is still in the (existing) log above the acknowledged position, so the rewound
+replicator consumes it again. -/
+theorem no_loss_partial (cfg : Cfg) (hx : cfg.ignoreExact = true) (evs : List Ev)
+    (hg : GapFree cfg St.init evs) (s : Int) (m t : Nat)
+    (h0 : 0 ≤ s) (hs : (run cfg St.init evs).log[s.toNat]? = some (some (m, t))) :
+    (∃ r ∈ fileRows (run cfg St.init evs), r.seq = s ∧ r.metric = m ∧ r.tagv = t) ∨
     ((run cfg St.init evs).groupAck < s ∧ (run cfg St.init evs).gcLow ≤ s ∧
       (run cfg St.init evs).walGone = false) := by
-  have h := inv_run cfg evs hg inv_init
+  have h := inv_run cfg hx evs hg inv_init
+  have hnb : ¬ Bad (run cfg St.init evs) s := by intro hb; rw [hb.2] at hs; cases hs
   by_cases hk : s ≤ (run cfg St.init evs).groupAck
   · left
-    obtain ⟨r, hr, hrs⟩ := h.stored_files s h0 (by have := h.ack_stored; omega)
-    obtain ⟨_, hl⟩ := h.rows_log r (Or.inl hr)
-    exact ⟨r, hr, hrs, by rw [← hrs]; exact hl⟩
+    rcases h.ack_stored s h0 hk with hst | hb
+    · rcases h.stored_files s h0 hst with hb | ⟨r, hr, hrs⟩
+      · exact absurd hb hnb
+      · obtain ⟨_, hl⟩ := h.rows_log r (Or.inl hr)
+        rw [hrs, hs] at hl
+        simp at hl
+        exact ⟨r, hr, hrs, hl.1.symm, hl.2.symm⟩
+    · exact absurd hb hnb
   · right
     have := h.gc_ack
     refine ⟨by omega, by omega, ?_⟩
     cases hw : (run cfg St.init evs).walGone with
     | false => rfl
-    | true => have := (h.wal_gone hw).1; omega
+    | true =>
+      have := (h.wal_gone hw).1
+      have hlen : s.toNat < (run cfg St.init evs).log.length := by
+        rcases Nat.lt_or_ge s.toNat (run cfg St.init evs).log.length with h' | h'
+        · exact h'
+        · simp [List.getElem?_eq_none h'] at hs
+      simp only [St.appended] at this
+      omega
 
-theorem no_loss (cfg : Cfg) (hc : cfg.atomicAcquire = true) (evs : List Ev) (s : Int)
-    (h0 : 0 ≤ s) (hs : s ≤ (run cfg St.init evs).appended) :
-    (∃ r ∈ fileRows (run cfg St.init evs), r.seq = s ∧
-        (run cfg St.init evs).log[s.toNat]? = some (r.metric, r.tagv)) ∨
+theorem no_loss (cfg : Cfg) (hx : cfg.ignoreExact = true) (hc : cfg.atomicAcquire = true)
+    (evs : List Ev) (s : Int) (m t : Nat)
+    (h0 : 0 ≤ s) (hs : (run cfg St.init evs).log[s.toNat]? = some (some (m, t))) :
+    (∃ r ∈ fileRows (run cfg St.init evs), r.seq = s ∧ r.metric = m ∧ r.tagv = t) ∨
     ((run cfg St.init evs).groupAck < s ∧ (run cfg St.init evs).gcLow ≤ s ∧
       (run cfg St.init evs).walGone = false) :=
-  no_loss_partial cfg evs (gapFree_init cfg hc evs) s h0 hs
+  no_loss_partial cfg hx evs (gapFree_init cfg hc evs) s m t h0 hs
 
-/-- The WAL garbage collector removes a log directory only when every entry of it is acknowledged,
-i.e. (by `ack_le_stored` / `no_loss`) contained in durable data files. -/
-theorem wal_gone_all_flushed (cfg : Cfg) (evs : List Ev) (hg : GapFree cfg St.init evs)
-    (hw : (run cfg St.init evs).walGone = true) (s : Int) (h0 : 0 ≤ s)
-    (hs : s ≤ (run cfg St.init evs).appended) :
+/-- The WAL garbage collector removes a log directory only when every entry of it that carries rows is
+contained in durable data files. -/
+theorem wal_gone_all_flushed (cfg : Cfg) (hx : cfg.ignoreExact = true) (evs : List Ev)
+    (hg : GapFree cfg St.init evs) (hw : (run cfg St.init evs).walGone = true) (s : Int) (m t : Nat)
+    (h0 : 0 ≤ s) (hs : (run cfg St.init evs).log[s.toNat]? = some (some (m, t))) :
     ∃ r ∈ fileRows (run cfg St.init evs), r.seq = s := by
-  rcases no_loss_partial cfg evs hg s h0 hs with ⟨r, hr, hrs, _⟩ | ⟨_, _, h3⟩
+  rcases no_loss_partial cfg hx evs hg s m t h0 hs with ⟨r, hr, hrs, _⟩ | ⟨_, _, h3⟩
   · exact ⟨r, hr, hrs⟩
   · rw [hw] at h3; cases h3
 
@@ -87,60 +118,78 @@ theorem rewind_resumes_after_ack (cfg : Cfg) (st : St) (h : st.phase = .opened) 
 
 /-- An entry at or below the durably stored sequence is never applied again: whenever a replica
 write has passed `ValidateSequence`, its sequence is above the stored one. -/
-theorem no_replay_below_partial (cfg : Cfg) (evs : List Ev) (hg : GapFree cfg St.init evs) (fl : InFlight)
+theorem no_replay_below_partial (cfg : Cfg) (hx : cfg.ignoreExact = true) (evs : List Ev)
+    (hg : GapFree cfg St.init evs) (fl : InFlight)
     (h : (run cfg St.init evs).inflight = some fl) :
     ov (run cfg St.init evs).stored < fl.seq := by
-  have hi := inv_run cfg evs hg inv_init
-  obtain ⟨hr, _, hq, _, _⟩ := hi.infl fl h
+  have hi := inv_run cfg hx evs hg inv_init
+  obtain ⟨hr, _, hq, _, _, _⟩ := hi.infl fl h
   have := hi.stored_seq (by rw [hr]; decide)
   omega
 
-theorem no_replay_below (cfg : Cfg) (hc : cfg.atomicAcquire = true) (evs : List Ev) (fl : InFlight)
-    (h : (run cfg St.init evs).inflight = some fl) :
+theorem no_replay_below (cfg : Cfg) (hx : cfg.ignoreExact = true) (hc : cfg.atomicAcquire = true)
+    (evs : List Ev) (fl : InFlight) (h : (run cfg St.init evs).inflight = some fl) :
     ov (run cfg St.init evs).stored < fl.seq :=
-  no_replay_below_partial cfg evs (gapFree_init cfg hc evs) fl h
+  no_replay_below_partial cfg hx evs (gapFree_init cfg hc evs) fl h
 
 /-- File-level form of "never applied again": a durable data file only ever contains rows of entries
 ABOVE the sequence that the manifest had stored before that file was committed, and the stored
 sequence is the one of the newest record that carries one. -/
-theorem no_replay_below_files_partial (cfg : Cfg) (evs : List Ev) (hg : GapFree cfg St.init evs) :
+theorem no_replay_below_files_partial (cfg : Cfg) (hx : cfg.ignoreExact = true) (evs : List Ev)
+    (hg : GapFree cfg St.init evs) :
     FilesAbove (run cfg St.init evs).files ∧
     (run cfg St.init evs).stored = latestStored (run cfg St.init evs).files :=
-  have h := inv2_run cfg evs hg inv_init inv2_init
+  have h := inv2_run cfg hx evs hg inv_init inv2_init
   ⟨h.files_above, h.stored_eq⟩
 
-theorem no_replay_below_files (cfg : Cfg) (hc : cfg.atomicAcquire = true) (evs : List Ev) :
+theorem no_replay_below_files (cfg : Cfg) (hx : cfg.ignoreExact = true) (hc : cfg.atomicAcquire = true)
+    (evs : List Ev) :
     FilesAbove (run cfg St.init evs).files ∧
     (run cfg St.init evs).stored = latestStored (run cfg St.init evs).files :=
-  no_replay_below_files_partial cfg evs (gapFree_init cfg hc evs)
+  no_replay_below_files_partial cfg hx evs (gapFree_init cfg hc evs)
 
 /-- "... or still in the log and replayed": from ANY reachable idle running state whose log still
 exists (in particular right after `recover` + `rewind`), running the replica loop to the end of the
-log makes every appended entry present in the node's storage (a data file or a memory database),
-with its own payload. -/
-theorem replay_complete_partial (cfg : Cfg) (evs : List Ev) (hg : GapFree cfg St.init evs) (n : Nat)
+log makes every appended entry that carries rows present in the node's storage (a data file or a
+memory database), with its own payload. -/
+theorem replay_complete_partial (cfg : Cfg) (hx : cfg.ignoreExact = true) (evs : List Ev)
+    (hg : GapFree cfg St.init evs) (n : Nat)
     (hr : (run cfg St.init evs).phase = .running) (hn : (run cfg St.init evs).inflight = none)
     (hw : (run cfg St.init evs).walGone = false)
     (hd : (run cfg St.init evs).appended - (run cfg St.init evs).consumed ≤ n)
-    (s : Int) (h0 : 0 ≤ s) (hs : s ≤ (run cfg St.init evs).appended) :
-    ∃ r, Stored (run cfg (run cfg St.init evs) (rounds n)) r ∧ r.seq = s ∧
-      (run cfg St.init evs).log[s.toNat]? = some (r.metric, r.tagv) := by
-  obtain ⟨hi, hp, hin, hl, hc⟩ := rounds_catch_up cfg n (inv_run cfg evs hg inv_init) hr hn hw hd
+    (s : Int) (m t : Nat) (h0 : 0 ≤ s) (hs : (run cfg St.init evs).log[s.toNat]? = some (some (m, t))) :
+    ∃ r, Stored (run cfg (run cfg St.init evs) (rounds n)) r ∧ r.seq = s ∧ r.metric = m ∧ r.tagv = t := by
+  obtain ⟨hi, hp, hin, hl, hc⟩ := rounds_catch_up cfg hx n (inv_run cfg hx evs hg inv_init) hr hn hw hd
   have happ : (run cfg (run cfg St.init evs) (rounds n)).appended = (run cfg St.init evs).appended := by
     simp [St.appended, hl]
+  have hlen : s.toNat < (run cfg St.init evs).log.length := by
+    rcases Nat.lt_or_ge s.toNat (run cfg St.init evs).log.length with h' | h'
+    · exact h'
+    · simp [List.getElem?_eq_none h'] at hs
+  have hsle : s ≤ (run cfg St.init evs).appended := by simp only [St.appended]; omega
+  have hnb : ¬ Bad (run cfg (run cfg St.init evs) (rounds n)) s := by
+    intro hb; have := hb.2; rw [hl, hs] at this; cases this
   have hidle := hi.idle hp hin
-  obtain ⟨r, hr1, hr2⟩ := hi.covered s h0 (by omega)
+  have hcov : Present (run cfg (run cfg St.init evs) (rounds n)) s := by
+    by_cases hle : s ≤ ov (run cfg (run cfg St.init evs) (rounds n)).seq
+    · rcases hi.covered s h0 hle with hb | hp'
+      · exact absurd hb hnb
+      · exact hp'
+    · exact absurd (hidle s (by omega) (by omega)) hnb
+  obtain ⟨r, hr1, hr2⟩ := hcov
   obtain ⟨_, hlog⟩ := hi.rows_log r hr1
-  exact ⟨r, hr1, hr2, by rw [← hl, ← hr2]; exact hlog⟩
+  rw [hr2, hl, hs] at hlog
+  simp at hlog
+  exact ⟨r, hr1, hr2, hlog.1.symm, hlog.2.symm⟩
 
-theorem replay_complete (cfg : Cfg) (hc : cfg.atomicAcquire = true) (evs : List Ev) (n : Nat)
+theorem replay_complete (cfg : Cfg) (hx : cfg.ignoreExact = true) (hc : cfg.atomicAcquire = true)
+    (evs : List Ev) (n : Nat)
     (hr : (run cfg St.init evs).phase = .running) (hn : (run cfg St.init evs).inflight = none)
     (hw : (run cfg St.init evs).walGone = false)
     (hd : (run cfg St.init evs).appended - (run cfg St.init evs).consumed ≤ n)
-    (s : Int) (h0 : 0 ≤ s) (hs : s ≤ (run cfg St.init evs).appended) :
-    ∃ r, Stored (run cfg (run cfg St.init evs) (rounds n)) r ∧ r.seq = s ∧
-      (run cfg St.init evs).log[s.toNat]? = some (r.metric, r.tagv) :=
-  replay_complete_partial cfg evs (gapFree_init cfg hc evs) n hr hn hw hd s h0 hs
+    (s : Int) (m t : Nat) (h0 : 0 ≤ s) (hs : (run cfg St.init evs).log[s.toNat]? = some (some (m, t))) :
+    ∃ r, Stored (run cfg (run cfg St.init evs) (rounds n)) r ∧ r.seq = s ∧ r.metric = m ∧ r.tagv = t :=
+  replay_complete_partial cfg hx evs (gapFree_init cfg hc evs) n hr hn hw hd s m t h0 hs
 
 /-- The recovered family rejects every sequence at or below the recovered (persisted) one. -/
 theorem recovered_rejects_persisted (cfg : Cfg) (st : St) (hd : st.phase = .down)
@@ -199,10 +248,10 @@ def goodTrace : List Ev :=
    .applyBegin, .applyTake, .applyAcquire, .applyWrite, .applyCommit, .applyBegin, .applyTake, .applyAcquire, .applyWrite, .applyCommit] ++
   flushRound ++ [.logGC 2, .crash, .recover, .rewind]
 
-example : Disciplined ⟨false, false⟩ St.init goodTrace := by decide
-example : (run ⟨false, false⟩ St.init goodTrace).groupAck = 3 ∧ (run ⟨false, false⟩ St.init goodTrace).stored = some 3 ∧
-    (fileRows (run ⟨false, false⟩ St.init goodTrace)).length = 4 ∧ (run ⟨false, false⟩ St.init goodTrace).gcLow = 2 := by decide
-example : Resolves (run ⟨false, false⟩ St.init goodTrace) := resolves_partial _ _ (by decide)
+example : Disciplined ⟨false, false, true⟩ St.init goodTrace := by decide
+example : (run ⟨false, false, true⟩ St.init goodTrace).groupAck = 3 ∧ (run ⟨false, false, true⟩ St.init goodTrace).stored = some 3 ∧
+    (fileRows (run ⟨false, false, true⟩ St.init goodTrace)).length = 4 ∧ (run ⟨false, false, true⟩ St.init goodTrace).gcLow = 2 := by decide
+example : Resolves (run ⟨false, false, true⟩ St.init goodTrace) := resolves_partial _ _ (by decide)
 
 /-- non-vacuity of `replay_complete`: a crash with two unapplied / unflushed entries; two rounds of
 the replica loop bring both back -/
@@ -210,10 +259,10 @@ def lossyTrace : List Ev :=
   [.append 0 0, .applyBegin, .applyTake, .applyAcquire, .applyWrite, .applyCommit] ++ flushRound ++
   [.append 1 1, .applyBegin, .applyTake, .applyAcquire, .applyWrite, .applyCommit, .append 2 2, .crash, .recover, .rewind]
 
-example : (run ⟨false, false⟩ St.init lossyTrace).phase = .running ∧ (run ⟨false, false⟩ St.init lossyTrace).inflight = none ∧
-    (run ⟨false, false⟩ St.init lossyTrace).appended - (run ⟨false, false⟩ St.init lossyTrace).consumed ≤ 2 ∧
-    (run ⟨false, false⟩ St.init lossyTrace).memMut = [] ∧
-    (run ⟨false, false⟩ St.init (lossyTrace ++ rounds 2)).memMut = [⟨2, 2, 2⟩, ⟨1, 1, 1⟩] := by decide
+example : (run ⟨false, false, true⟩ St.init lossyTrace).phase = .running ∧ (run ⟨false, false, true⟩ St.init lossyTrace).inflight = none ∧
+    (run ⟨false, false, true⟩ St.init lossyTrace).appended - (run ⟨false, false, true⟩ St.init lossyTrace).consumed ≤ 2 ∧
+    (run ⟨false, false, true⟩ St.init lossyTrace).memMut = [] ∧
+    (run ⟨false, false, true⟩ St.init (lossyTrace ++ rounds 2)).memMut = [⟨2, 2, 2⟩, ⟨1, 1, 1⟩] := by decide
 
 /-! ### generated facts: the model's event order is the code's call order -/
 
@@ -322,7 +371,8 @@ theorem wal_gc_predicate :
       = ["w.GetOrCreatePartition", "partition.recovery"] := by decide
 
 /-- the configuration the driver runs the model with: the PrepareFlush shape found in /repo -/
-def codeCfg : Cfg := ⟨LinVerif.Generated.C07.swapOnEmpty, LinVerif.Generated.C07.atomicAcquire⟩
+def codeCfg : Cfg :=
+  ⟨LinVerif.Generated.C07.swapOnEmpty, LinVerif.Generated.C07.atomicAcquire, LinVerif.Generated.C07.ignoreExact⟩
 
 namespace Neg
 
@@ -343,7 +393,7 @@ theorem window_breaks_resolves (cfg : Cfg) :
     (⟨1, 1, 0⟩ : Row) ∈ fileRows st ∧ st.groupAck = 1 ∧ st.stored = some 1 ∧
     1 ∉ st.metric.dur ∧ ¬ Resolves st := by
   cases cfg with
-  | mk a b => cases a <;> cases b <;> decide
+  | mk a b c => cases a <;> cases b <;> cases c <;> decide
 
 /-- WITNESS 2 (empty prepare wedges the dictionary): three flush rounds in the code's order and
 with NO write inside any round; the second round finds nothing new, its `PrepareFlush` parks an
@@ -356,12 +406,12 @@ def wedgeTrace : List Ev :=
   [.crash, .recover, .rewind]
 
 theorem wedge_breaks_resolves :
-    let st := run ⟨false, false⟩ St.init wedgeTrace
+    let st := run ⟨false, false, true⟩ St.init wedgeTrace
     (⟨2, 1, 0⟩ : Row) ∈ fileRows st ∧ st.groupAck = 2 ∧ st.stored = some 2 ∧
     1 ∉ st.metric.dur ∧ ¬ Resolves st := by decide
 
 /-- with `PrepareFlush` also swapping an empty immutable map the same history resolves -/
-theorem wedge_fixed_resolves : Resolves (run ⟨true, false⟩ St.init wedgeTrace) := by decide
+theorem wedge_fixed_resolves : Resolves (run ⟨true, false, true⟩ St.init wedgeTrace) := by decide
 
 /-- the full-strength statement is refuted (for every code shape) -/
 theorem not_resolves (cfg : Cfg) : ¬ ∀ evs : List Ev, Resolves (run cfg St.init evs) := fun h =>
@@ -370,9 +420,9 @@ theorem not_resolves (cfg : Cfg) : ¬ ∀ evs : List Ev, Resolves (run cfg St.in
 /-- the window history violates exactly clause (a) of the discipline, at the `freeze` -/
 theorem window_not_disciplined (cfg : Cfg) : ¬ Disciplined cfg St.init windowTrace := by
   cases cfg with
-  | mk a b => cases a <;> cases b <;> decide
+  | mk a b c => cases a <;> cases b <;> cases c <;> decide
 
-theorem wedge_not_disciplined : ¬ Disciplined ⟨false, false⟩ St.init wedgeTrace := by decide
+theorem wedge_not_disciplined : ¬ Disciplined ⟨false, false, true⟩ St.init wedgeTrace := by decide
 
 /-- WITNESS 3 (writer registered too late): entry 1's `WriteRows` has looked its memory database
 up; before it registers as writer a complete `Flush` of that database runs (it holds entry 0 and
@@ -389,37 +439,67 @@ def gapTrace : List Ev :=
 /-- entry 1 is in no data file although the log is acknowledged up to 2: `no_loss` fails for the
 current shape of `WriteRows` (and the history is, of course, not `GapFree`) -/
 theorem gap_loses_entry :
-    let st := run ⟨true, false⟩ St.init gapTrace
+    let st := run ⟨true, false, true⟩ St.init gapTrace
     st.appended = 2 ∧ st.groupAck = 2 ∧ st.stored = some 2 ∧ st.walGone = false ∧
     (∀ r ∈ fileRows st, r.seq ≠ 1) ∧ (fileRows st).length = 2 ∧
-    ¬ GapFree ⟨true, false⟩ St.init gapTrace := by decide
+    ¬ GapFree ⟨true, false, true⟩ St.init gapTrace := by decide
 
 /-- with the writer registered inside the mutex section the same schedule keeps the entry: the flush
 waits for the write (`dataCommit` is not enabled), the row is part of the flushed table -/
 theorem gap_closed_keeps_entry :
-    ∃ r ∈ fileRows (run ⟨true, true⟩ St.init gapTrace), r.seq = 1 := by decide
+    ∃ r ∈ fileRows (run ⟨true, true, true⟩ St.init gapTrace), r.seq = 1 := by decide
 
-theorem no_loss_fails_for_gap_shape : ¬ ∀ (evs : List Ev) (s : Int),
-    0 ≤ s → s ≤ (run ⟨true, false⟩ St.init evs).appended →
-    (∃ r ∈ fileRows (run ⟨true, false⟩ St.init evs), r.seq = s ∧
-        (run ⟨true, false⟩ St.init evs).log[s.toNat]? = some (r.metric, r.tagv)) ∨
-    ((run ⟨true, false⟩ St.init evs).groupAck < s ∧ (run ⟨true, false⟩ St.init evs).gcLow ≤ s ∧
-      (run ⟨true, false⟩ St.init evs).walGone = false) := by
+theorem no_loss_fails_for_gap_shape : ¬ ∀ (evs : List Ev) (s : Int) (m t : Nat),
+    0 ≤ s → (run ⟨true, false, true⟩ St.init evs).log[s.toNat]? = some (some (m, t)) →
+    (∃ r ∈ fileRows (run ⟨true, false, true⟩ St.init evs), r.seq = s ∧ r.metric = m ∧ r.tagv = t) ∨
+    ((run ⟨true, false, true⟩ St.init evs).groupAck < s ∧ (run ⟨true, false, true⟩ St.init evs).gcLow ≤ s ∧
+      (run ⟨true, false, true⟩ St.init evs).walGone = false) := by
   intro h
-  have := h gapTrace 1 (by decide) (by decide)
+  have := h gapTrace 1 0 0 (by decide) (by decide)
   revert this
   decide
 
+/-- WITNESS 4 (`IgnoreMessage` acknowledging ANY unusable entry above the acknowledged position —
+not the shape in /repo, `Generated.C07.ignoreExact = true`): entries 0 and 1 are applied but not
+flushed, entry 2 is corrupt: the acknowledged position jumps to 2, after a crash nothing is replayed. -/
+def ignoreTrace : List Ev :=
+  [.append 0 0] ++ applyRound ++ [.append 1 1] ++ applyRound ++ [.appendBad] ++ applyRound ++
+  [.crash, .recover, .rewind] ++ rounds 3
+
+theorem ignore_any_skips_unflushed :
+    let st := run ⟨true, true, false⟩ St.init ignoreTrace
+    st.groupAck = 2 ∧ st.stored = none ∧ st.consumed = 2 ∧ fileRows st = [] ∧ st.memMut = [] := by decide
+
+/-- with the exact condition the same history keeps both entries: nothing is acknowledged, both are replayed -/
+theorem ignore_exact_keeps_unflushed :
+    let st := run ⟨true, true, true⟩ St.init ignoreTrace
+    st.groupAck = -1 ∧ st.memMut.length = 2 := by decide
+
 end Neg
+
+/-- the bare inequality `groupAck ≤ stored` does NOT hold once corrupt entries exist: a corrupt entry
+directly behind a fully flushed log is acknowledged without a flush (`ack_le_stored` allows exactly this) -/
+theorem ack_past_stored_only_over_corrupt :
+    let st := run ⟨true, true, true⟩ St.init ([.append 0 0] ++ applyRound ++ flushRound ++ [.appendBad] ++ applyRound)
+    st.groupAck = 1 ∧ st.stored = some 0 ∧ Bad st 1 ∧ st.seq = some 1 := by decide
+
+open LinVerif.Generated.C07 in
+/-- `replicator.IgnoreMessage` acknowledges an unusable entry only when it is the next one after the
+acknowledged position, and `Replica` runs it (deferred) before the deferred `CommitSequence` -/
+theorem ignore_is_next_only :
+    ignoreCond = "currentAck+1 == replicaIdx" ∧ ignoreExact = true ∧
+    ignoreMessageCalls = ["r.AckIndex", "r.SetAckIndex"] ∧
+    replicaCalls.filter (fun s => s ∈ ["reader.Uncompress", "defer:r.IgnoreMessage", "defer:family.CommitSequence"])
+      = ["reader.Uncompress", "defer:r.IgnoreMessage", "defer:family.CommitSequence"] := by decide
 
 /-! ### WAL garbage collection (non-vacuity of `walExpire`) -/
 
 /-- an expired family's log is NOT removed while an entry is consumed but not flushed; it is removed
 once everything is acknowledged, and a crash afterwards loses nothing -/
 example :
-    (run ⟨true, false⟩ St.init ([.append 0 0] ++ applyRound ++ [.walExpire])).walGone = false ∧
-    (run ⟨true, false⟩ St.init ([.append 0 0] ++ applyRound ++ flushRound ++ [.walExpire])).walGone = true ∧
-    (let st := run ⟨true, false⟩ St.init ([.append 0 0] ++ applyRound ++ flushRound ++ [.walExpire, .crash, .recover])
+    (run ⟨true, false, true⟩ St.init ([.append 0 0] ++ applyRound ++ [.walExpire])).walGone = false ∧
+    (run ⟨true, false, true⟩ St.init ([.append 0 0] ++ applyRound ++ flushRound ++ [.walExpire])).walGone = true ∧
+    (let st := run ⟨true, false, true⟩ St.init ([.append 0 0] ++ applyRound ++ flushRound ++ [.walExpire, .crash, .recover])
      st.phase = .running ∧ (fileRows st).length = 1) := by decide
 
 /-! ### observation (b): flush racing replication (NOT a violation of C07 as stated) -/
@@ -434,7 +514,7 @@ def raceTrace : List Ev :=
    .crash, .recover, .rewind, .applyBegin, .applyTake, .applyAcquire, .applyWrite, .applyCommit]
 
 theorem race_replays_flushed_entry :
-    let st := run ⟨false, false⟩ St.init raceTrace
+    let st := run ⟨false, false, true⟩ St.init raceTrace
     st.stored = some 0 ∧ st.groupAck = 0 ∧ (⟨1, 0, 0⟩ : Row) ∈ fileRows st ∧ (⟨1, 0, 0⟩ : Row) ∈ st.memMut := by
   decide
 
